@@ -83,6 +83,20 @@ def run(ctx):
     cg = mirg.CallGraph(prog.all_workspace())
     mpq = prog.crate("wow_mpq")
 
+    # one-level summaries: a local helper that commits onto one of its own parameters is a committer on that argument
+    commit_wrappers = {}
+    for f in mpq.fn_list:
+        if f.kind == "Closure" or norm(f.path) in WRITERS:
+            continue
+        der = None
+        for bb, t in iter_calls(f):
+            c = ncallee(t)
+            if c in COMMITTERS:
+                der = der or Derive(f)
+                for k, w, d in der.roots(t["a"][FS_MUT[c]]):
+                    if k == "param" and d and w[1] == ():
+                        commit_wrappers[norm(f.path)] = (w[0] - 1, c, f)
+
     for wpath, spec in WRITERS.items():
         fn = mpq.fns.get(wpath)
         if fn is None:
@@ -100,6 +114,11 @@ def run(ctx):
             c = ncallee(t)
             if c in TEMP_IN_DIR or c in TEMP_ELSEWHERE:
                 temps.append((bb, t, c))
+            if c in commit_wrappers and commit_wrappers[c][0] < len(t["a"]):
+                roots = der.roots(t["a"][commit_wrappers[c][0]])
+                if any(k == "param" and is_dest(w) and d for k, w, d in roots):
+                    commits.append((bb, t, "%s (wraps %s)" % (c.split("::")[-1], commit_wrappers[c][1].split("::")[-1])))
+                    continue
             if c in FS_MUT:
                 arg = t["a"][FS_MUT[c]]
                 roots = der.roots(arg)
@@ -203,7 +222,7 @@ def run(ctx):
     # reachable set: no other fs mutation
     reach = cg.local_reachable(list(WRITERS))
     for p in sorted(reach):
-        if p in WRITERS:
+        if p in WRITERS or norm(p) in commit_wrappers:
             continue
         f = cg.fns[p]
         ctx.saw_fn(f)
